@@ -18,6 +18,8 @@ class Driver:
                                   text=True, bufsize=1)
         self.asks = 0
         self.cases = 0
+        self.src_runs = 0
+        self.src_diffs = []      # VAL cases on which the interpreted source and the hand model differ
 
     def close(self):
         try:
@@ -37,7 +39,13 @@ class Driver:
                 raise DriverError("driver died on %s" % channel)
             line = line.rstrip("\n")
             if line.startswith("OK "):
-                return codec.decode(line[3:])
+                r = codec.decode(line[3:])
+                if channel == "VAL" and isinstance(r, dict) and "srcDiff" in r:
+                    sd = r.pop("srcDiff")
+                    self.src_runs += 1
+                    if sd is not None and len(self.src_diffs) < 20:
+                        self.src_diffs.append({"case": payload, "model": r, "source": sd})
+                return r
             if line.startswith("ASK "):
                 self.asks += 1
                 q = codec.decode(line[4:])
